@@ -131,25 +131,29 @@ def r4(p, rep):
 def r5(p, rep):
     rep.rule("C07.R5", "automatic bracket marking marks exactly the axes missing from the output", "T-DER [S]", floor=2)
     f = p.func("_parse_op", "adapter.einx_from_namedtensor")
-    marks = [g for g in p.funcs.values() if g.parent is f and g.name == "_mark"]
-    if not marks:
-        raise AnalysisError("unrecognised idiom: no _mark predicate in _parse_op")
-    g = marks[0]
-    tests = [n for n in walk_no_nested(g.node) if isinstance(n, ast.If)]
-    t = norm(tests[0].test) if tests else ""
-    prm = g.params[0]
-    ok = f"isinstance({prm}, stage1.Axis)" in t and f"{prm}.name not in axes_names_out" in t and " and " in t
-    rep.add("C07.R5", f"{g.qualname}:predicate", g.loc, ok, f"marks `{t}`" + ("" if ok else ": un-bracketed reduction no longer equals brackets around the axes missing from the output"))
-    defs = [n for n in walk_no_nested(f.node) if isinstance(n, ast.Assign) and norm(n.targets[0]) == "axes_names_out"]
-    ok = bool(defs) and "expr_out.nodes()" in norm(defs[0].value) and ".name" in norm(defs[0].value)
-    rep.add("C07.R5", f"{f.qualname}:axes_names_out", f.loc, ok, "axes_names_out = names of all axes of the output expression")
-    cond = [n for n in walk_no_nested(f.node) if isinstance(n, ast.Assign) and norm(n.targets[0]) == "marking_reduced_axes"]
+    scope = [g for g in p.funcs.values() if g is f or g.parent is f or (g.parent is not None and g.parent.parent is f)] + common.with_helpers(p, f)[1:]
+    # the marking predicate: `isinstance(e, stage1.Axis) and e.name not in <names of the output axes>`
+    preds = []
+    for g in scope:
+        for n in ast.walk(g.node):
+            if isinstance(n, ast.BoolOp) and isinstance(n.op, ast.And) and len(n.values) == 2:
+                a, b = n.values
+                if isinstance(a, ast.Call) and norm(a.func) == "isinstance" and norm(a.args[1]).endswith("stage1.Axis") and isinstance(b, ast.Compare) and isinstance(b.ops[0], ast.NotIn) and norm(b.left) == f"{norm(a.args[0])}.name":
+                    preds.append((g, n, b.comparators[0]))
+    preds = [(g, n, c) for g, n, c in preds if "out" in norm(c)]
+    if not preds:
+        raise AnalysisError("unrecognised idiom: no `isinstance(e, stage1.Axis) and e.name not in <output axis names>` marking predicate in _parse_op")
+    g, n, names = preds[0]
+    rep.ok("C07.R5", f"{f.qualname}:mark-predicate", f"{g.module.rel}:{n.lineno}", f"marks `{norm(n)}`")
+    defs = [a for h in scope for a in walk_no_nested(h.node) if isinstance(a, ast.Assign) and norm(a.targets[0]) == norm(names)]
+    ok = bool(defs) and ".nodes()" in norm(defs[0].value) and ".name" in norm(defs[0].value) and "out" in norm(defs[0].value)
+    rep.add("C07.R5", f"{f.qualname}:axes_names_out", f.loc, ok, f"{norm(names)} = names of all axes of the output expression")
+    cond = [a for h in scope for a in walk_no_nested(h.node) if isinstance(a, ast.Assign) and isinstance(a.value, ast.BoolOp) and norm(a.value.values[0]) == "mark_reduced_axes"]
     v = cond[0].value if cond else None
     ok = (
         isinstance(v, ast.BoolOp)
         and isinstance(v.op, ast.And)
         and len(v.values) == 2
-        and norm(v.values[0]) == "mark_reduced_axes"
         and isinstance(v.values[1], ast.UnaryOp)
         and isinstance(v.values[1].op, ast.Not)
         and norm(v.values[1].operand).startswith("any(")
